@@ -23,14 +23,18 @@ theorem C14_all_sites_order_independent :
     mapRanges.all (fun r => r.cls == .collectThenSort || r.cls == .pointwiseMapWrite) = true := by
   decide +kernel
 
-/-- the sites are exactly the five the model accounts for: which function ranges over a Go map,
+/-- the sites are exactly the six the model accounts for: which function ranges over a Go map (or takes
+    `maps.Keys` / `maps.Values` of one: a slice in the map's iteration order),
     how often, and how each range uses its keys (the NAME of the map variable is not part of the
     fact: renaming a local does not change it) -/
 theorem C14_sites :
     mapRanges.map (fun r => (r.func, r.cls)) =
       [("AllocateSellingCoin", .collectThenSort), ("RefundPayingCoin", .collectThenSort),
        ("CalculateBatchAllocation", .pointwiseMapWrite),
-       ("CalculateBatchAllocation", .pointwiseMapWrite), ("BidsByPrice", .collectThenSort)] := by
+       ("CalculateBatchAllocation", .pointwiseMapWrite),
+       -- module wiring: `modNames := maps.Keys(hooks); order := modNames; sort.Strings(order)` — the
+       -- order in which other modules' listeners are registered (lexical by module name)
+       ("InvokeSetHooks", .collectThenSort), ("BidsByPrice", .collectThenSort)] := by
   decide +kernel
 
 /-- (b1) collect-then-sort over bidder keys (AllocateSellingCoin, RefundPayingCoin): whatever
